@@ -964,3 +964,153 @@ def guard_semantics(ctx, w, S, R, term_dump, em):
                   (label, COLS, ROWS, target, ["line %s: %s" % (e.line, e.guard_str()[:60]) for e in cands][:4]), loc=w.fn_loc(term_dump),
                   sample={"deviation": label, "enabled": ["line %s" % e.line for e in hit]})
     ctx.floor("U10", 10, "single-component deviations")
+    screen_walk(ctx, w, S, R, term_dump, em, base)
+
+
+# ---- U11 ---------------------------------------------------------------------------------------
+def screen_walk(ctx, w, S, R, term_dump, em, base):
+    """The dump script evaluated as a walk over the two screens: for every combination of showing screen and deviation of
+    either saved context from its default, follow the ENABLED emissions in order (guards evaluated on that state, the
+    routine's own `let` bindings included): what addresses the alternate screen (its saved-context block, its content)
+    must be emitted while the script is on the alternate screen, what addresses the primary screen while it is on the
+    primary, and the script must end on the screen that is showing.  Which field holds which screen's context comes from
+    the roles (the save routine writes the showing screen's context), not from the dump."""
+    import symeval as SE
+    ctx.rule("U11", "for every showing screen x deviation of either saved context: enabled emissions addressing the alternate screen's saved context / content lie between the enabled switch pair, "
+                    "those addressing the primary screen outside it, and the script ends on the showing screen")
+    sim = dumpsim.Sim(w)
+    fns = {e.order: emission_function(w, e, sim) for e in em}
+    enter = [e for e in em if fns.get(e.order) and fns[e.order][0] == "Decset" and "AltScreenBuffer" in fns[e.order][1]]
+    leave = [e for e in em if fns.get(e.order) and fns[e.order][0] == "Decrst" and "AltScreenBuffer" in fns[e.order][1]]
+    fa, fp, ft = R["saved_ctx"], R["parked_saved_ctx"], R["active_buffer_type"]
+    base = dict(base)
+    dflt = "<%s as core::default::Default>::default" % R["saved_ctx_ty"]
+    if dflt in w.facts.hir:
+        try:
+            for x in (fa, fp):
+                if isinstance(base.get(x), tuple) and base[x][0] == "obj":
+                    v = StrInterp(w.facts).call_fn(dflt, [])
+                    base[x] = ("obj", base[x][1], v[2])
+        except H.Unsupported:
+            pass
+    if len(enter) != 1 or len(leave) != 1 or not fa or not fp or not ft or not all(isinstance(base.get(x), tuple) and base[x][0] == "obj" for x in (fa, fp)):
+        ctx.missing_anchor("U11", "alternate-screen switch pair / the two saved contexts / the showing-screen flag")
+        return
+    tfield = [f for f in w.facts.struct_fields(S.term_ty) if f["name"] == ft][0]
+    tadt = tfield["ty"].get("adt")
+    prim_v = base[ft]
+    others = [("v", "%s::%s" % (tadt, v)) for v in w.facts.enum_variants(tadt) if ("v", "%s::%s" % (tadt, v)) != prim_v]
+    if not (isinstance(prim_v, tuple) and prim_v[0] == "v") or len(others) != 1:
+        ctx.missing_anchor("U11", "two-valued showing-screen flag with a constant power-on value")
+        return
+    alt_v = others[0]
+
+    def deviations(obj):
+        out = [("default", obj)]
+        for k, v in sorted(obj[2].items()):
+            if isinstance(v, bool):
+                out.append(("%s=%s" % (k, not v), ("obj", obj[1], dict(obj[2], **{k: (not v)}))))
+            elif isinstance(v, int):
+                out.append(("%s=%d" % (k, v + 1), ("obj", obj[1], dict(obj[2], **{k: v + 1}))))
+        return out
+    body = w.hir(term_dump)["body"]
+
+    def evaluate(T, ctx_a, ctx_p):
+        state = dict(base)
+        state.update({ft: T, fa: ctx_a, fp: ctx_p, S.active_buffer: ("sym", "SHOWING-BUFFER"), S.parked_buffer: ("sym", "PARKED-BUFFER")})
+        selfv = ("obj", S.term_ty, state)
+        it = StrInterp(w.facts)
+        env = {"self": selfv}
+        for st in body.get("stmts", []):
+            if st["k"] == "let" and "init" in st and not str(st["pat"].get("ty", "")).endswith("string::String"):
+                try:
+                    it.match_pat(st["pat"], it.ev(st["init"], env), env)
+                except (H.Unsupported, KeyError, TypeError):
+                    pass
+        en, content = {}, {}
+        for e in em:
+            try:
+                vals = []
+                for (k, pol, ge) in e.guards:
+                    v = StrInterp(w.facts).ev(ge, dict(env))
+                    if SE.is_symbolic(v) or not isinstance(v, bool) or pol not in (True, False):
+                        raise H.Unsupported("guard value")
+                    vals.append(v if pol else (not v))
+                en[e.order] = all(vals)
+            except (H.Unsupported, KeyError, TypeError):
+                en[e.order] = None
+            if e.kind == "nested" and S._impl_of(e.payload[0]) == S.buffer_ty:
+                try:
+                    r = StrInterp(w.facts).ev(e.payload[1], dict(env))
+                    while isinstance(r, tuple) and r and r[0] == "ref":
+                        r = r[-1]
+                    content[e.order] = r[1] if isinstance(r, tuple) and r[0] == "sym" else None
+                except (H.Unsupported, KeyError, TypeError):
+                    content[e.order] = None
+        return en, content
+    dev_a, dev_p = deviations(base[fa]), deviations(base[fp])
+    en0, _ = evaluate(prim_v, base[fa], base[fp])
+    special = {enter[0].order, leave[0].order}
+    prim_members, alt_members = set(), set()
+    flips = {}
+    for T, tl in ((prim_v, "primary"), (alt_v, "alternate")):
+        enb, _ = evaluate(T, base[fa], base[fp])
+        for lbl, o in dev_a[1:]:
+            en1, _ = evaluate(T, o, base[fp])
+            flips[(tl, "showing", lbl)] = {k for k in en1 if en1[k] != enb[k] and k not in special}
+        for lbl, o in dev_p[1:]:
+            en1, _ = evaluate(T, base[fa], o)
+            flips[(tl, "parked", lbl)] = {k for k in en1 if en1[k] != enb[k] and k not in special}
+    for (tl, which, lbl), fl in flips.items():
+        if tl == "primary":
+            (prim_members if which == "showing" else alt_members).update(fl)
+    if not prim_members or not alt_members or prim_members & alt_members:
+        ctx.missing_anchor("U11", "emissions that depend on the primary / on the alternate screen's saved context (found %d / %d, %d in both)" % (len(prim_members), len(alt_members), len(prim_members & alt_members)))
+        return
+    # with the alternate screen showing the two fields have changed places (the showing screen's context is always in the
+    # field the save routine writes): the same emissions must follow the same SCREEN's context
+    for lbl, _o in dev_a[1:]:
+        for which, other in (("showing", "parked"), ("parked", "showing")):
+            a, b = flips.get(("primary", which, lbl), set()), flips.get(("alternate", other, lbl), set())
+            ctx.check(a == b, "U11", "rebind:%s:%s" % (which, lbl), "the emissions enabled by `%s` of the %s screen's saved context differ between the primary screen showing (lines %s) and the alternate screen showing (lines %s): "
+                      "the two saved contexts are not re-bound when the screens are switched" % (lbl.split("=")[0], "primary" if which == "showing" else "alternate",
+                                                                                              sorted(e.line for e in em if e.order in a), sorted(e.line for e in em if e.order in b)), loc=w.fn_loc(term_dump))
+    by_order = {e.order: e for e in em}
+    n = 0
+    for T, tl in ((prim_v, "primary"), (alt_v, "alternate")):
+        for la, oa in dev_a:
+            for lp, op in dev_p:
+                en, content = evaluate(T, oa, op)
+                label = "showing=%s,%s:%s,%s:%s" % (tl, fa, la, fp, lp)
+                msg = None
+                if en[enter[0].order] is None or en[leave[0].order] is None:
+                    msg = "the guard of the alternate-screen switch could not be evaluated"
+                screen = "primary"
+                for e in em:
+                    if msg:
+                        break
+                    on = en[e.order]
+                    if on is not True:
+                        continue
+                    if e.order == enter[0].order:
+                        screen = "alternate"
+                    elif e.order == leave[0].order:
+                        screen = "primary"
+                    else:
+                        want = "primary" if e.order in prim_members else "alternate" if e.order in alt_members else None
+                        if e.order in content and content[e.order]:
+                            shows = content[e.order] == "SHOWING-BUFFER"
+                            want = tl if shows else ("alternate" if tl == "primary" else "primary")
+                        if want and want != screen:
+                            msg = "the emission at line %s (%s) addresses the %s screen but is written while the script is on the %s screen" % (e.line, e.guard_str()[:80], want, screen)
+                if not msg and screen != tl:
+                    msg = "the script ends on the %s screen although the %s screen is showing" % (screen, tl)
+                n += 1
+                if msg is not None:
+                    bad_n = getattr(ctx, "_u11_bad", 0) + 1
+                    ctx._u11_bad = bad_n
+                    if bad_n > 6:          # the first six states are reported in full
+                        continue
+                ctx.check(msg is None, "U11", label, "dump with the %s screen showing, %s %s, %s %s: %s" % (tl, fa, la, fp, lp, msg), loc=w.fn_loc(term_dump),
+                          sample={"state": label, "enabled": sum(1 for v in en.values() if v is True)})
+    ctx.floor("U11", 18, "showing screen x saved-context deviations")
